@@ -194,30 +194,35 @@ class Code310(Code38):
         """
         Convert a list of (offset, line_number) encoding of
         co_linetable into the compacted 3.10-encoded format described
-        in lnotab_notes.txt.
-
+        in lnotab_notes.txt: pairs (length of a range of code in bytes,
+        signed line delta applied before that range).  An entry
+        (offset, line_number) starts a range which ends at the next
+        entry's offset; the last one ends with the code.
         """
         co_linetable = b""
 
+        entries = list(self.co_linetable)
         prev_line_number = self.co_firstlineno
-        prev_offset = 0
-        offset_diff = 0
 
-        for offset, line_number in self.co_linetable:
+        for k, (offset, line_number) in enumerate(entries):
+            if k + 1 < len(entries):
+                end_offset = entries[k + 1][0]
+            else:
+                end_offset = len(self.co_code)
+            offset_diff = end_offset - offset
             line_diff = line_number - prev_line_number
             prev_line_number = line_number
-            offset_diff = offset - prev_offset
-            prev_offset = offset
-            while offset_diff >= 256:
-                co_linetable += bytearray([255, 0])
-                offset_diff -= 255
-            co_linetable += bytearray([offset_diff, line_diff % 256])
-            while line_diff >= 127:
+            while line_diff > 127:
                 co_linetable += bytearray([0, 127])
                 line_diff -= 127
             while line_diff < -127:
-                co_linetable += bytearray([0, -127])
-                line_diff -= 127
+                co_linetable += bytearray([0, -127 & 0xFF])
+                line_diff += 127
+            while offset_diff > 254:
+                co_linetable += bytearray([254, line_diff & 0xFF])
+                line_diff = 0
+                offset_diff -= 254
+            co_linetable += bytearray([offset_diff, line_diff & 0xFF])
 
         self.co_linetable = co_linetable
 
